@@ -26,22 +26,50 @@ GEN = ["Files.lean"]
 DRIVERS = ["drv_files"]
 TRUSTED = [
     "modelled, not verified: the filesystem and the remote open/os.* calls are real and trusted: read(n) on a regular "
-    "file returns the next min(n, remaining) bytes, write appends, listdir names are unique, isdir/isfile follow links; "
-    "special files are 'other'",
+    "file returns the next min(n, remaining) bytes, write appends, listdir names are unique, isdir/isfile follow symbolic "
+    "links (a link to a file is a file, to a directory a directory; the kernel stops after 40 links, there a link cycle "
+    "becomes 'neither'); fifos, devices, dangling links are 'other'",
+    "not modelled: os.makedirs creating missing parents of the destination; conn.modules.os.path.join using the peer's "
+    "separator; unreadable files / listing errors in mid-tree (a partial destination); chunk_size None or negative (read-all)",
 ]
 ASSUMPTIONS = [
-    "the destination path is absent or an empty directory before the transfer (merging into existing trees is outside "
-    "the statement)",
+    "the transfer is judged on what the source tree looks like through isdir/isfile/listdir at the time of the transfer "
+    "(links followed); the destination may be absent or hold anything - the result is the pruned source laid over it "
+    "(theorem transfer_onto_any_destination); the oracle demands the last source's files byte for byte and tolerates "
+    "what earlier transfers left",
     "chunk size >= 1 (with 0 the first read is empty and nothing is copied; shown as an example in Props/C20.lean)",
-    "download is upload with the two sides swapped: one model, both real code paths run against it",
+    "names are sequences of code points (undecodable file-name bytes are lone surrogates, as os.fsdecode gives them); "
+    "they cross the wire as brine str - this relies on the C04 repair (lone surrogates serialisable)",
+    "a filter OBJECT that is falsy (defines __bool__/__len__ as false) is ignored by the code (`not filter or filter(fn)`): "
+    "everything is transferred (theorem falsy_filter_is_no_filter; real-code replay: filter Z) - against the letter of "
+    "'a name filter excludes exactly the entries it rejects'; reported, not judged by the oracle",
+    "a regular file where a directory is needed / a directory where a file is to be written: FileExistsError / "
+    "IsADirectoryError from the underlying call, the transfer stops there (modelled; outside the statement)",
 ]
-EXPLANATION = ("Theorems for all trees, contents, filters and chunk sizes >= 1: the chunk loop copies every byte string "
-               "exactly (strong induction on length); upload/download = prune (mutual structural induction): every file "
-               "that survives the filter arrives under the same relative path with the same bytes, empty directories "
-               "included, rejected names vanish with everything below them; path-by-path characterisation; no filter "
-               "=> identity; invalid top-level path => ValueError unless ignore_invalid.")
+EXPLANATION = ("Property theorems for all trees, contents, names, filters and chunk sizes >= 1: the chunk loop copies every byte "
+               "string exactly; upload = prune (mutual structural induction); download, transcribed separately, = upload; "
+               "path-by-path characterisation; no filter => identity; a transfer onto ANY destination = the pruned source laid "
+               "over it (files replaced whatever their size/age, directories merged, type conflicts as OSErrors), the last "
+               "transfer wins; default chunk sizes regenerated from the source are >= 1. NOT counted as property theorems "
+               "(one-step unfoldings, kept in Files/Lemmas.lean): invalid_top_level, top_level_not_filtered.")
 
 CHUNKS = [1, 2, 7, 64000]
+
+
+def cps(name):
+    """a name as the model gets it: its code points in hex, dot-separated (lone surrogates - undecodable bytes - included)"""
+    return ".".join("%x" % ord(ch) for ch in name) if name else "-"
+
+
+def uncps(text):
+    return "" if text == "-" else "".join(chr(int(x, 16)) for x in text.split("."))
+
+
+F_TMP, F_TXT, F_D = "S" + cps(".tmp"), "S" + cps(".txt"), "P" + cps("d")
+ODD_FILES = ["\u00e9%d.txt", "\u65e5\u672c%d.tmp", "nl\n%d", "trail%d ", " lead%d.tmp", "\udcff%d", "f%d\t.bak", "\U0001f600%d",
+             "e\u0301%d.txt", "f\udc80%d.tmp"]
+ODD_DIRS = ["d\u00e9%d", "d\udcfe%d", "d\n%d.tmp", "\u65e5%d "]
+LINK = {"area": None, "n": 0, "root": None}       # where link targets are made; set by the rig for each case
 
 
 # ------------------------------------------------------------------------------------------ trees
@@ -119,14 +147,15 @@ def gen_tree(r, depth, c, budget, force_dir=False):
     for i in range(fan):
         sub = gen_tree(r, depth - 1, c, budget)
         if sub[0] == "D":
-            name = r.choice(["d%d", "d%d", "dir%d", "d%d.tmp", "d.%d"]) % i
+            name = r.choice(["d%d", "d%d", "dir%d", "d%d.tmp", "d.%d"] + ([r.choice(ODD_DIRS)] if r.chance(1, 4) else [])) % i
         elif sub[0] == "F":
-            name = r.choice(["f%d.txt", "f%d.tmp", "f%d", "x%d.bak", "f%d.tmp.txt", ".f%d", "f %d"]) % i
+            name = r.choice(["f%d.txt", "f%d.tmp", "f%d", "x%d.bak", "f%d.tmp.txt", ".f%d", "f %d"]
+                            + ([r.choice(ODD_FILES)] if r.chance(1, 3) else [])) % i
         else:
             name = r.choice(["s%d", "s%d.tmp"]) % i
         if name not in used:
             used.add(name)
-            entries.append((name, sub))
+            entries.append((name, ("L", sub) if sub[0] in "FD" and r.chance(1, 12) else sub))
     if r.chance(1, 2):
         add_colliders(r, entries, c)
     return ("D", entries)
@@ -174,7 +203,15 @@ def collision_tree(reverse):
 
 
 def materialize(path, tree):
-    if tree[0] == "F":
+    if tree[0] == "L":
+        # a symbolic link to an existing file / directory kept outside the tree: isdir/isfile follow it
+        LINK["n"] += 1
+        target = os.path.join(LINK["area"], "t%d" % LINK["n"])
+        materialize(target, tree[1])
+        os.symlink(target, path)
+    elif tree[0] == "C":
+        os.symlink(LINK["root"], path)          # a link back to the top of the tree: a cycle
+    elif tree[0] == "F":
         with open(path, "wb") as f:
             f.write(tree[1])
     elif tree[0] == "X":
@@ -206,7 +243,11 @@ def tree_text(tree):
         return "F" + tree[1].hex()
     if tree[0] == "X":
         return "X"
-    return "D( " + "".join("n%s %s " % (n.encode("ascii").hex(), tree_text(t)) for n, t in tree[1]) + ")"
+    if tree[0] == "L":
+        return "L( " + tree_text(tree[1]) + " )"          # (replay files only; the model is given the listed tree)
+    if tree[0] == "C":
+        return "C"
+    return "D( " + "".join("n%s %s " % (cps(n), tree_text(t)) for n, t in tree[1]) + ")"
 
 
 def parse_tree(toks, i=0):
@@ -215,11 +256,16 @@ def parse_tree(toks, i=0):
         return ("X", "?"), i + 1
     if tok[0] == "F":
         return ("F", bytes.fromhex(tok[1:])), i + 1
+    if tok == "C":
+        return ("C",), i + 1
+    if tok == "L(":
+        sub, i = parse_tree(toks, i + 1)
+        return ("L", sub), i + 1
     if tok == "D(":
         i += 1
         entries = []
         while toks[i] != ")":
-            name = bytes.fromhex(toks[i][1:]).decode("ascii")
+            name = uncps(toks[i][1:])
             sub, i = parse_tree(toks, i + 1)
             entries.append((name, sub))
         return ("D", entries), i + 1
@@ -240,6 +286,10 @@ def canon(tree):
 def brief(tree):
     if tree is None:
         return "-"
+    if tree[0] == "L":
+        return "->" + brief(tree[1])
+    if tree[0] == "C":
+        return "->top"
     if tree[0] == "F":
         return "F%d" % len(tree[1])
     if tree[0] == "X":
@@ -304,12 +354,23 @@ def depth_of(tree):
 
 
 # ------------------------------------------------------------------------------------------ filters
+class FalsyFilter:
+    """a callable filter object that is falsy (say, a rule set with no rules that defines __len__): rejects every name"""
+
+    def __bool__(self):
+        return False
+
+    def __call__(self, fn):
+        return False
+
+
 FILTERS = {
     "N": None,
-    "S" + b".tmp".hex(): lambda fn: not fn.endswith(".tmp"),
-    "P" + b"d".hex(): lambda fn: not fn.startswith("d"),
+    F_TMP: lambda fn: not fn.endswith(".tmp"),
+    F_D: lambda fn: not fn.startswith("d"),
     "A": lambda fn: False,
-    "S" + b".txt".hex(): lambda fn: not fn.endswith(".txt"),
+    F_TXT: lambda fn: not fn.endswith(".txt"),
+    "Z": FalsyFilter(),
 }
 
 
@@ -345,6 +406,8 @@ class Rig:
         os.mkdir(base)
         src = os.path.join(base, "src")
         dst = os.path.join(base, "dst")
+        LINK["area"], LINK["root"] = os.path.join(base, "targets"), src
+        os.mkdir(LINK["area"])
         tree = case["tree"]
         if not (tree[0] == "X" and tree[1] == "missing"):
             materialize(src, tree)
@@ -398,8 +461,11 @@ def run_history(rig, hist):
     dst = os.path.join(base, "dst")
     out = []
     try:
+        LINK["area"] = os.path.join(base, "targets")
+        os.mkdir(LINK["area"])
         for i, st in enumerate(hist["steps"]):
             src = os.path.join(base, "src%d" % i)
+            LINK["root"] = src
             materialize(src, st["tree"])
             set_mtimes(src, dst, st.get("mtime", "now"))
             before = read_tree(dst)
@@ -448,11 +514,27 @@ def boundary_histories():
                     ("d1", ("D", [("c", ("F", b"CC")), ("d2", ("D", [("deep", ("F", b"DEEP-2"))])), ("e", ("D", [])),
                                   ("new", ("F", b"n"))]))])
         for c in (7, None):
-            for f in ("N", "S" + b".tmp".hex()):
+            for f in ("N", F_TMP):
                 for pol in ("old", "same"):
                     out.append(dict(direction=d, steps=[dict(chunk=c, filter=f, tree=v1, mtime="now"),
                                                         dict(chunk=c, filter=f, tree=v2, mtime=pol),
                                                         dict(chunk=c, filter=f, tree=v1, mtime="old")]))     # roll-back
+    return out
+
+
+def conflict_histories():
+    """a regular file where a directory has to be made, a directory where a file has to be written - at the top and below"""
+    out = []
+    f, dd = ("F", b"file"), ("D", [("in", ("F", b"x"))])
+    for d in ("upload", "download"):
+        out.append(dict(direction=d, conflict=True, steps=[dict(chunk=2, filter="N", tree=f), dict(chunk=2, filter="N", tree=dd)]))
+        out.append(dict(direction=d, conflict=True, steps=[dict(chunk=2, filter="N", tree=dd), dict(chunk=2, filter="N", tree=f)]))
+        out.append(dict(direction=d, conflict=True, steps=[
+            dict(chunk=7, filter="N", tree=("D", [("a", ("F", b"1")), ("n", f), ("z", ("F", b"2"))])),
+            dict(chunk=7, filter="N", tree=("D", [("a", ("F", b"3")), ("n", dd), ("z", ("F", b"4"))])),
+            dict(chunk=7, filter="N", tree=("D", [("n", ("F", b"again"))]))]))
+        out.append(dict(direction=d, conflict=True, steps=[
+            dict(chunk=7, filter="N", tree=("D", [("n", dd)])), dict(chunk=7, filter="N", tree=("D", [("n", f)]))]))
     return out
 
 
@@ -461,7 +543,7 @@ def gen_history(r):
     t = gen_tree(r, r.range(1, 3), c or 7, [0], force_dir=r.chance(3, 4))
     t = strip_others(t)
     steps = [dict(chunk=c, filter="N", tree=t, mtime="now"),
-             dict(chunk=c, filter=r.choice(["N", "N", "S" + b".tmp".hex()]), tree=same_size_variant(t, r.below(200)),
+             dict(chunk=c, filter=r.choice(["N", "N", F_TMP]), tree=same_size_variant(t, r.below(200)),
                   mtime=r.choice(["old", "same", "now"]))]
     if r.chance(1, 2):
         steps.append(dict(chunk=c, filter="N", tree=t, mtime=r.choice(["old", "same"])))
@@ -469,6 +551,8 @@ def gen_history(r):
 
 
 def strip_others(tree):
+    if tree[0] == "L":
+        return strip_others(tree[1])
     if tree[0] == "D":
         return ("D", [(n, strip_others(t)) for n, t in tree[1] if t[0] != "X"])
     return tree if tree[0] == "F" else ("F", b"")
@@ -603,11 +687,36 @@ def boundary_cases():
                                 tree=("F", content(kind, n, 64000))))
             out.append(dict(direction="upload_file" if kind in ("zeros", "dup") else "download_file", chunk=None,
                             filter="N", ignore_invalid=False, tree=("F", content(kind, n, 64000))))
+    # names that are not plain ASCII: accents, CJK, an astral code point, a newline, a tab, leading / trailing blanks, and
+    # names that are not valid UTF-8 (lone surrogates from os.fsdecode) - on files and directories, nested
+    odd = ("D", [("\u00e9.txt", ("F", b"e-acute")), ("\u65e5\u672c.tmp", ("F", b"nihon")), ("nl\nname", ("F", b"newline")),
+                 ("trail ", ("F", b"trailing blank")), (" lead.tmp", ("F", b"leading blank")), ("\udcff", ("F", b"byte ff")),
+                 ("f\udc80.tmp", ("F", b"byte 80")), ("\U0001f600", ("F", b"astral")), ("tab\t.bak", ("F", b"tab")),
+                 ("d\u00e9", ("D", [("\udcfe\udcff", ("F", b"two bad bytes")), ("e\u0301", ("D", [])),
+                                  ("d\n.tmp", ("D", [("x", ("F", b"in newline dir"))]))]))])
+    for d in ("upload", "download"):
+        for f in ("N", F_TMP, F_D):
+            out.append(dict(direction=d, chunk=7, filter=f, ignore_invalid=False, tree=odd))
+        out.append(dict(direction=d, chunk=None, filter="N", ignore_invalid=False, tree=odd, dest_exists=True))
+    # symbolic links to a file, to a directory (followed by isdir/isfile), nested; and a link back to the top (a cycle:
+    # the kernel stops following after 40 links, there the entry is neither file nor directory)
+    linked = ("D", [("plain", ("F", b"p")), ("lf", ("L", ("F", b"linked file" * 3))),
+                    ("ld", ("L", ("D", [("in", ("F", b"inside")), ("lf2.tmp", ("L", ("F", b"x"))), ("e", ("D", []))]))),
+                    ("d1", ("D", [("ld2", ("L", ("D", []))), ("dang", ("X", "dangling"))]))])
+    cyc = ("D", [("f", ("F", b"ff")), ("sub", ("D", [("g.tmp", ("F", b"g")), ("loop", ("C",))]))])
+    for d in ("upload", "download"):
+        for f in ("N", F_TMP):
+            out.append(dict(direction=d, chunk=7, filter=f, ignore_invalid=False, tree=linked))
+        out.append(dict(direction=d, chunk=2, filter="N", ignore_invalid=False, tree=cyc))
+        out.append(dict(direction=d, chunk=2, filter="N", ignore_invalid=False, tree=("L", ("F", b"top-level link"))))
+        # a filter object that is falsy
+        out.append(dict(direction=d, chunk=7, filter="Z", ignore_invalid=False, tree=odd))
+        out.append(dict(direction=d, chunk=1, filter="Z", ignore_invalid=True, tree=("D", [("a", ("F", b"1")), ("d", ("D", []))])))
     # names colliding under temp-name schemes, both creation orders, both directions
     for d in ("upload", "download"):
         for rev in (False, True):
             out.append(dict(direction=d, chunk=7, filter="N", ignore_invalid=False, tree=collision_tree(rev)))
-            out.append(dict(direction=d, chunk=None, filter="S" + b".tmp".hex(), ignore_invalid=False,
+            out.append(dict(direction=d, chunk=None, filter=F_TMP, ignore_invalid=False,
                             tree=collision_tree(rev)))
     # chunk sizes ABOVE the stream chunk (consts.STREAM_CHUNK = 64000), file sizes around and above it
     for c in (64001, 100000, 128000, 1048576):
@@ -638,7 +747,7 @@ def boundary_cases():
         out.append(dict(direction=d, chunk=64000, filter="N", ignore_invalid=False, dest_exists=True, tree=sample))
         # without chunk_size: the functions' own default
         out.append(dict(direction=d, chunk=None, filter="N", ignore_invalid=False, tree=sample))
-        out.append(dict(direction=d, chunk=None, filter="S" + b".tmp".hex(), ignore_invalid=False, tree=sample))
+        out.append(dict(direction=d, chunk=None, filter=F_TMP, ignore_invalid=False, tree=sample))
         for n in (0, 1, 63999, 64000, 64001):
             out.append(dict(direction=d + "_file", chunk=None, filter="N", ignore_invalid=False,
                             tree=("F", bytes((i * 13 + 5) & 0xFF for i in range(n)))))
@@ -673,6 +782,10 @@ def correspondence(ctx):
               "mtime long ago / equal to the destination's / fresh; a tree, a new version of it (same-size changes, a size "
               "change, a new file), then the first version again (roll-back); seeded trees re-transferred with every file "
               "changed at equal size; each step compared with the model started from the real destination before it. "
+              "Names: accents, CJK, astral, newline, tab, leading/trailing blank, lone surrogates (undecodable bytes) on files and "
+              "directories, transported as code points; symbolic links to a file / a directory (followed), a link cycle; a "
+              "falsy callable as filter; a file where a directory is needed and the reverse (FileExistsError / "
+              "IsADirectoryError). "
               "File contents: random, all zeros, last / last complete / first / middle chunk all zeros, one repeated "
               "byte (00, ff, 0a, 0d), CR/LF-heavy, every chunk equal to the previous one, a zero-free pattern - at every "
               "boundary size for chunk 1, 2, 7 and at c, 2c, 3c+1 for the others, both directions. "
@@ -687,7 +800,7 @@ def correspondence(ctx):
             out, listed = rig.run_case(case)
             impl.append((case, listed, out))
             lines.append(op_line(case, listed))
-        hists = boundary_histories() + [gen_history(r) for _ in range(ctx.budget(25, 600))]
+        hists = boundary_histories() + conflict_histories() + [gen_history(r) for _ in range(ctx.budget(25, 600))]
         hist_steps, hist_lines = [], []
         for hist in hists:
             for i, (listed, before, res) in enumerate(run_history(rig, hist)):
@@ -749,6 +862,8 @@ def correspondence(ctx):
 
 
 def other_kinds(tree):
+    if tree[0] == "L":
+        return other_kinds(tree[1])
     if tree[0] == "X":
         return [tree[1]]
     if tree[0] == "D":
@@ -775,6 +890,8 @@ def spec_prune(tree, filt):
 
 
 def oracle_case(rig, case):
+    if case["filter"] == "Z":
+        return None        # a falsy callable as filter: the code ignores it; reported, not judged here
     out, listed = rig.run_case(case)
     if case["direction"] in ("upload_file", "download_file"):
         want = ("ok", listed)
@@ -798,6 +915,8 @@ def shrink_tree(tree):
         for i, (n, t) in enumerate(tree[1]):
             for s in shrink_tree(t):
                 yield ("D", tree[1][:i] + [(n, s)] + tree[1][i + 1:])
+    elif tree[0] == "L":
+        yield tree[1]
     elif tree[0] == "F" and len(tree[1]) > 0:
         yield ("F", tree[1][:len(tree[1]) // 2])
         yield ("F", tree[1][:-1])
